@@ -361,6 +361,13 @@ def run_check(prop, tier, seed, jobs=None):
     reported, known_hits = [], []
     groups = {}
     for o in viol:
+        # an open known finding is matched obligation by obligation (by name and witness), never by group: another input
+        # that starts to fail the same clause is reported
+        kf = _match_known(known, prop, o, None)
+        if kf is not None:
+            o["known_finding"] = kf["id"]
+            known_hits.append((kf, o))
+            continue
         groups.setdefault(_group_key(o), []).append(o)
     from . import obl as oblmod
     for gk, os_ in groups.items():
